@@ -668,6 +668,29 @@ theorem i2_same {s s' : State} (hinv : Inv3 s) (h : I2 s) (q : Same3 s s')
   | a ha => exact I2.ofEarly (ha.same q).notLate (he (h.1 ha.notLate))
   | b hb => exact I2.ofEarly (hb.same q).notLate (he (h.1 hb.notLate))
 
+
+/-- the "anything else" arm of "in table text" is `flush_pending_table_text` followed by the reprocessing -/
+theorem stepInTableText_comment (c : Str) :
+    stepInTableText (.comment c) = flushPendingTableText >>= fun m => pure (.reprocess m (.comment c)) := by
+  unfold stepInTableText flushPendingTableText
+  simp only [bind_assoc]
+  congr 1; funext s0
+  congr 1; funext _
+  split
+  · simp only [bind_assoc]
+    congr 1; funext _
+    congr 1; funext _
+    congr 1; funext s1
+    cases s1.origMode with
+    | none => simp only [panicAt]; rfl
+    | some m0 => simp
+  · simp only [bind_assoc]
+    congr 1; funext _
+    congr 1; funext s1
+    cases s1.origMode with
+    | none => simp only [panicAt]; rfl
+    | some m0 => simp
+
 theorem processToken_good (R : Rules) {s s' : State} {t : TokToken} {line : Nat} {r : SinkResult} (h : Inv3 s)
     (hi : I2 s) (e : processToken t line s = .ok (r, s')) : I2 s' ∧ (t = .eof → Fin s') := by
   unfold processToken at e
@@ -778,13 +801,49 @@ theorem processToken_good (R : Rules) {s s' : State} {t : TokToken} {line : Nat}
         have := hl.ml.mode
         rw [hm] at this; cases this
       exact I2.ofEarly hnl hke
-    · obtain ⟨u3, s3, e4, e5⟩ := bind_ok.mp e3
-      obtain ⟨tb, s5, e8, e9⟩ := bind_ok.mp e5
-      obtain ⟨rfl, rfl⟩ := pure_ok.mp e8
-      have q3 := same3_parseError e4
-      simp only at e9
-      obtain ⟨_, rfl⟩ := pure_ok.mp e9
-      exact ⟨i2_same h2 hi2 q3 (fun r g => g.qs (qs_parseError e4)) (fun h2 => h2.ke e4), fun h => by cases h⟩
+    · have tail : ∀ s3 : State, Inv3 s3 → I2 s3 →
+          (parseError "DOCTYPE in body" >>= fun _ => (pure none : M (Option Token)) >>= fun tbToken =>
+            match tbToken with
+            | none => pure SinkResult.continue_
+            | some t => do
+              let __do_lift ← getS
+              processToCompletion (ptcFuel __do_lift t) t []) s3 = .ok (r, s') →
+          I2 s' ∧ (TokToken.doctype dt = .eof → Fin s') := by
+        intro s3 h3 hi3 e3
+        obtain ⟨u3, s4, e4, e5⟩ := bind_ok.mp e3
+        obtain ⟨tb, s5, e8, e9⟩ := bind_ok.mp e5
+        obtain ⟨rfl, rfl⟩ := pure_ok.mp e8
+        have q3 := same3_parseError e4
+        simp only at e9
+        obtain ⟨_, rfl⟩ := pure_ok.mp e9
+        exact ⟨i2_same h3 hi3 q3 (fun r g => g.qs (qs_parseError e4)) (fun h2 => h2.ke e4), fun h => by cases h⟩
+      rw [getS_bind] at e3
+      rcases ite_run e3 with ⟨hmt, e3⟩ | ⟨_, e3⟩
+      · -- in table text: the pending text is flushed as by the "anything else" arm of that mode
+        have hmt' : s2.mode = .inTableText := by simpa using hmt
+        have hl2 : Late s2 := by
+          cases h2 with
+          | a ha => have := ha.2.1; rw [hmt'] at this; cases this
+          | b hb => have := hb.2.1; rw [hmt'] at this; cases this
+          | late hl => exact hl
+        obtain ⟨rt, hg2⟩ := hi2.2 hl2
+        obtain ⟨m0, s3, e4, e5⟩ := bind_ok.mp e3
+        obtain ⟨hl3, hm0, _⟩ := flushPendingTableText_late hl2 e4
+        have estep : step .inTableText (.comment []) s2 = .ok (.reprocess m0 (.comment []), s3) := by
+          show stepInTableText (.comment []) s2 = _
+          rw [stepInTableText_comment]
+          exact bind_ok.mpr ⟨m0, s3, e4, rfl⟩
+        have hout := R.mode .inTableText rfl (.comment []) inferInstance rt s2 _ s3 hg2 hmt' estep
+        obtain ⟨u4, s4, e6, e7⟩ := bind_ok.mp e5
+        unfold setMode at e6
+        have hs4 := modS_ok.mp e6
+        have hl4 : Late s4 := by
+          rw [hs4]
+          exact ⟨hl3.base, hl3.pat, ⟨hl3.st.doc, hl3.st.ctx, hl3.st.oe, hl3.st.tail, hl3.st.head, hl3.st.ptt⟩,
+            ⟨hm0, hl3.ml.orig, hl3.ml.tm⟩⟩
+        have hg4 : Good rt s4 := by rw [hs4]; exact hout.1
+        exact tail s4 (.late hl4) ⟨fun hn => absurd hl4 hn, fun _ => ⟨rt, hg4⟩⟩ e7
+      · exact tail s2 h2 hi2 e3
   | tag tg =>
     simp only at e3
     obtain ⟨tb, s5, e8, e9⟩ := bind_ok.mp e3
